@@ -146,9 +146,18 @@ pub struct SubCheck {
     pub replay: fn(&Value) -> Result<CaseResult, String>,
 }
 
+#[derive(Clone, Debug)]
+pub struct FuzzSpec {
+    pub target: &'static str,
+    pub runs: u64,
+    pub max_len: u32,
+}
+
 pub struct Property {
     pub id: &'static str,
     pub subs: Vec<SubCheck>,
+    /// libFuzzer targets (thorough tier only) that reuse this property's run functions
+    pub fuzz: Vec<FuzzSpec>,
     pub assumptions: Vec<&'static str>,
     /// minimum fraction (in percent) of non-trivial cases per sub below which the run is inconclusive
     pub nt_floor_percent: u32,
@@ -887,6 +896,21 @@ pub fn run_check(props: &[Property], id: &str, tier: Tier, seed: u64) -> CheckOu
         }
     }
 
+    // 5. coverage-guided stage (thorough tier): libFuzzer + ASan over the same run functions
+    let mut fuzz_ev: Vec<Value> = Vec::new();
+    let mut fuzz_runs_total = 0u64;
+    if tier == Tier::Thorough && violations.is_empty() && std::env::var("VERIF_NO_FUZZ").is_err() {
+        for spec in p.fuzz.iter() {
+            let (ev, runs, viol) = run_fuzz_stage(id, spec, seed);
+            fuzz_runs_total += runs;
+            fuzz_ev.push(ev);
+            for (sig, path) in viol {
+                violations.push((sig, path));
+            }
+        }
+    }
+    total_eval += fuzz_runs_total;
+
     let wall = t0.elapsed().as_secs_f64();
     let evidence = json!({
         "property_id": id,
@@ -902,6 +926,7 @@ pub fn run_check(props: &[Property], id: &str, tier: Tier, seed: u64) -> CheckOu
             "per_sub": Value::Object(sub_summ),
             "histogram": counters,
             "replays_rerun": replays_run,
+            "fuzz": fuzz_ev,
             "workers": nworkers,
             "inconclusive": inconclusive,
             "known_findings_reported": known_lines.iter().cloned().collect::<Vec<_>>(),
@@ -948,6 +973,107 @@ pub fn run_check(props: &[Property], id: &str, tier: Tier, seed: u64) -> CheckOu
         return CheckOutcome { exit: 2 };
     }
     CheckOutcome { exit: 0 }
+}
+
+/// run one libFuzzer campaign of fixed work; infrastructure problems are recorded, never fatal
+fn run_fuzz_stage(id: &str, spec: &FuzzSpec, seed: u64) -> (Value, u64, Vec<(String, PathBuf)>) {
+    let fuzz_dir = Path::new(VERIF_ROOT).join("fuzz");
+    let work = Path::new(VERIF_ROOT).join("work").join("fuzz").join(format!("{}-{}-{}", id, spec.target, std::process::id()));
+    let corpus = work.join("corpus");
+    let artifacts = work.join("artifacts");
+    let _ = std::fs::create_dir_all(&corpus);
+    let _ = std::fs::create_dir_all(&artifacts);
+    let mut seeds = 0u64;
+    if let Ok(rd) = std::fs::read_dir(fuzz_dir.join("corpus").join(spec.target)) {
+        for e in rd.flatten() {
+            if std::fs::copy(e.path(), corpus.join(e.file_name())).is_ok() {
+                seeds += 1;
+            }
+        }
+    }
+    let t0 = Instant::now();
+    let out = Command::new("cargo")
+        .current_dir(&fuzz_dir)
+        .env("CARGO_NET_OFFLINE", "true")
+        .env("FUZZ_PROP", id)
+        .env("RUST_BACKTRACE", "0")
+        .args(["+nightly", "fuzz", "run", "--fuzz-dir", "."])
+        .arg(spec.target)
+        .arg(&corpus)
+        .arg("--")
+        .arg(format!("-runs={}", spec.runs))
+        .arg(format!("-seed={}", (seed % 0xFFFF_FFFF).max(1)))
+        .arg("-len_control=0")
+        .arg(format!("-max_len={}", spec.max_len))
+        .arg(format!("-artifact_prefix={}/", artifacts.display()))
+        .arg("-print_final_stats=1")
+        .stdin(Stdio::null())
+        .output();
+    let secs = t0.elapsed().as_secs_f64();
+    let mut viol = Vec::new();
+    let (status, runs) = match out {
+        Err(e) => (format!("unavailable: cannot start cargo fuzz: {e}"), 0),
+        Ok(o) => {
+            let text = format!("{}\n{}", String::from_utf8_lossy(&o.stdout), String::from_utf8_lossy(&o.stderr));
+            let mut runs = 0u64;
+            for l in text.lines() {
+                if let Some(r) = l.strip_prefix("stat::number_of_executed_units:") {
+                    runs = r.trim().parse().unwrap_or(0);
+                }
+                if let Some(rest) = l.strip_prefix("FUZZ-VIOLATION ") {
+                    let mut prop = "";
+                    let mut replay = "";
+                    let mut sig = "";
+                    for tok in rest.split_whitespace() {
+                        if let Some(v) = tok.strip_prefix("property=") {
+                            prop = v;
+                        } else if let Some(v) = tok.strip_prefix("replay=") {
+                            replay = v;
+                        } else if let Some(v) = tok.strip_prefix("signature=") {
+                            sig = v;
+                        }
+                    }
+                    if prop == id {
+                        viol.push((sig.to_string(), PathBuf::from(replay)));
+                    }
+                }
+            }
+            if !viol.is_empty() {
+                ("violation".to_string(), runs)
+            } else if o.status.success() {
+                ("ok".to_string(), runs)
+            } else if text.contains("ERROR: AddressSanitizer") || text.contains("ERROR: libFuzzer") {
+                // a crash without a semantic report: memory error or abort inside the library
+                let mut saved = None;
+                if let Ok(rd) = std::fs::read_dir(&artifacts) {
+                    for e in rd.flatten() {
+                        let dst = Path::new(VERIF_ROOT).join("work").join("failures").join(id);
+                        let _ = std::fs::create_dir_all(&dst);
+                        let to = dst.join(format!("fuzz-{}-{}", spec.target, e.file_name().to_string_lossy()));
+                        if std::fs::copy(e.path(), &to).is_ok() {
+                            saved = Some(to);
+                        }
+                    }
+                }
+                match saved {
+                    Some(pth) => {
+                        viol.push(("crash/sanitizer-or-abort-in-fuzz-target".to_string(), pth));
+                        ("crash".to_string(), runs)
+                    }
+                    None => ("unavailable: fuzzer failed without artifact".to_string(), runs),
+                }
+            } else {
+                let tail: String = text.lines().rev().take(4).collect::<Vec<_>>().join(" | ");
+                (format!("unavailable: {}", tail), runs)
+            }
+        }
+    };
+    let _ = std::fs::remove_dir_all(&work);
+    (
+        json!({"engine": "cargo-fuzz/libFuzzer+ASan", "target": spec.target, "runs_requested": spec.runs, "runs_executed": runs, "seed_corpus_files": seeds, "max_len": spec.max_len, "status": status, "wall_s": secs}),
+        runs,
+        viol,
+    )
 }
 
 pub fn worker_main(props: &[Property], a: &WorkerArgs) -> i32 {
